@@ -396,7 +396,7 @@ def roundtrip_histories(hid0, rng, tmpdir, thorough):
                 m = (m + m.transpose(1, 0, 2)) / 2.0            # (the export must not rely on symmetry: odd reps are not symmetric)
             if prep == "fortran":
                 m = np.asfortranarray(m)
-            o = cls(mat=m, taxa=np.array(names, dtype=object), taxa_grp=np.array([rng.randrange(1, 3) for _ in range(n)], dtype="int64"),
+            o = cls(mat=m, taxa=np.array(names, dtype=object), taxa_grp=np.array([rng.randrange(1, 5) for _ in range(n)], dtype="int64"),
                     trait=np.array(sorted(["y%d" % k for k in range(t)], reverse=(rep == 1)), dtype=object))
             if prep == "sort_trait":
                 o.sort_trait()
@@ -416,6 +416,15 @@ def roundtrip_histories(hid0, rng, tmpdir, thorough):
                 o.to_csv(fn)
                 return canon(cls.from_csv(fn))
             ev.append(same("canonical(from_csv(to_csv()))" + sfx, canon(o), csv_rt))
+            # matching column options: one of the two (redundant) group columns left out on both sides
+            for opt in ("male_grp_col", "female_grp_col"):
+                kwo = {opt: None}
+                ev.append(same("canonical(from_pandas(to_pandas(%s=None), %s=None))" % (opt, opt) + sfx, canon(o),
+                               lambda kwo=kwo: canon(cls.from_pandas(o.to_pandas(**kwo), **kwo))))
+                def csv_rt2(kwo=kwo):
+                    o.to_csv(fn, **kwo)
+                    return canon(cls.from_csv(fn, **kwo))
+                ev.append(same("canonical(from_csv(to_csv(%s=None), %s=None))" % (opt, opt) + sfx, canon(o), csv_rt2))
             out.append({"id": hid, "cls": clsname, "ev": ev})
     # ---- genetic maps (positions written in cM are read as cM)
     for clsname in ("StandardGeneticMap", "ExtendedGeneticMap"):
